@@ -230,16 +230,18 @@ Section DictCall.
   Context {V : Type}.
   Variable inj : string -> V.       (* how a key name is passed as the value of the 'key' parameter *)
 
-  Inductive item := IConst (v : V) | IFun (deps : list string) (fn : list V -> V).
-  Definition fdef := (string * (list string * (list V -> V)))%type.
+  (* a callable: its parameters in order (positional or keyword-only alike: every argument is passed by keyword), each
+     with its default if it has one, and its body as a function of the values bound to them *)
+  Inductive item := IConst (v : V) | IFun (params : list (string * option V)) (fn : list V -> V).
+  Definition fdef := (string * (list (string * option V) * (list V -> V)))%type.
 
   (* the value bound to parameter d when evaluating key k: res[d], else the default {'key': k} *)
-  Definition arg (res : amap V) (k d : string) : option V :=
-    match aget d res with
+  Definition arg (res : amap V) (k : string) (p : string * option V) : option V :=
+    match aget (fst p) res with
     | Some v => Some v
-    | None => if String.eqb d "key" then Some (inj k) else None
+    | None => if String.eqb (fst p) "key" then Some (inj k) else snd p      (* its own default, if any *)
     end.
-  Fixpoint args (res : amap V) (k : string) (ds : list string) : option (list V) :=
+  Fixpoint args (res : amap V) (k : string) (ds : list (string * option V)) : option (list V) :=
     match ds with
     | [] => Some []
     | d :: ds' => match arg res k d, args res k ds' with
@@ -271,7 +273,7 @@ Section DictCall.
   Definition inl (k : string) (l : list string) : bool := existsb (String.eqb k) l.
   (* len(keys & set(getargs(value))) == 0 *)
   Definition independent (keys : list string) (kc : fdef) : bool :=
-    negb (existsb (fun d => inl d keys) (fst (snd kc))).
+    negb (existsb (fun d => inl d keys) (map fst (fst (snd kc)))).       (* getargs: ALL parameter names, defaulted or not *)
 
   (* while len(callables) > 1: ... ; then the (at most one) remaining callable *)
   Fixpoint call_loop (fuel : nat) (cs : list fdef) (res : amap V) : cres :=
@@ -302,7 +304,7 @@ Section DictCall.
     else call_loop (List.length (funs kw)) (funs kw) (aupdate base (consts kw)).
 End DictCall.
 Arguments IConst {V} v.
-Arguments IFun {V} deps fn.
+Arguments IFun {V} params fn.
 Arguments COk {V} r.
 Arguments CErr {V} e.
 
